@@ -251,12 +251,14 @@ def entries_route_through_funnel(ctx):
 
 def _done_returns(funcnode, cfg):
     """`if value is Done: return getattr(self, pname)` idiom (legacy, documented TODO) -> cfg node ids"""
+    def is_done(a, tv):
+        return isinstance(a, ast.Compare) and len(a.ops) == 1 and src(a.comparators[0]) == 'Done' and \
+            ((isinstance(a.ops[0], ast.Is) and tv) or (isinstance(a.ops[0], ast.IsNot) and not tv))
+    side = sides_with_fact(cfg, is_done)
     res = set()
     for node in body_walk(funcnode):
-        if isinstance(node, ast.Return):
-            for a in ancestors(node):
-                if isinstance(a, ast.If) and 'is Done' in src(a.test):
-                    res.update(cfg.node_of(node))
+        if isinstance(node, ast.Return) and set(cfg.node_of(node)) <= side:
+            res.update(cfg.node_of(node))
     return res
 
 
